@@ -238,9 +238,15 @@ def registerEach (op : String) : Coll → List Item → Coll × Option Err
 
 def Req.base (r : Req) : Desc := { ty := r.primary, life := r.life, ctor := r.ctor }
 
-/-- result-object fields: own type, own name tag, own group tag; options `Name`/`Group` are not applied -/
+/-- result-object fields: own type, own name tag, own group tag; options `Name`/`Group` are not
+applied. A field that carries both tags is refused when the loop reaches it, before its
+`registerDescriptor` (collection.go:582-592); the fields registered before it are rolled back. -/
 def Req.fieldItems (r : Req) : List Item :=
-  r.fields.map fun f => { d := { r.base with ty := f.ty, key := keyOfName f.name, grp := f.grp } }
+  r.fields.map fun f =>
+    { pre := if f.name ≠ 0 ∧ f.grp ≠ 0 then
+               some (eRegistration (some f.ty) "register result object field" (eValidation (some f.ty) eText))
+             else none,
+      d := { r.base with ty := f.ty, key := keyOfName f.name, grp := f.grp } }
 
 /-- multiple returns: `Name` goes to the first return only, `Group` to all -/
 def retItems (r : Req) : Nat → List Nat → List Item
@@ -415,13 +421,10 @@ def applyAll (c : Coll) : List (Coll → Coll × Option Err) → Coll
   | f :: rest => applyAll (f c).1 rest
 
 /-- The instance keys under which one invocation of `d`'s constructor stores outputs
-(scope.go:611-760): today every sibling of the call, whether or not it is still registered
-(finding D25). -/
-def storeOuts (_reg : List Desc) (d : Desc) : List (Nat × Key × Nat) := d.stores
-
-/-- What a repaired `createInstance` would do: skip siblings that are no longer the registration of
-their identity. (`ctor` identifies the Add call: the harness gives every call its own constructor.) -/
-def storeOutsRepaired (reg : List Desc) (d : Desc) : List (Nat × Key × Nat) :=
+(scope.go:611-770): the siblings of the call that are still the registration of their identity
+(`provider.isRegistered`, since 852a640; before, every sibling: finding D25). `ctor` identifies the Add
+call: the harness gives every call its own constructor value. -/
+def storeOuts (reg : List Desc) (d : Desc) : List (Nat × Key × Nat) :=
   d.stores.filter fun s =>
     ((reg.find? fun x => !x.key.isIdx && decide (x.ident = (s.1, s.2.1))).map (·.ctor)) == some d.ctor
 
